@@ -90,7 +90,9 @@ fn add_correction(ts: Timestamp, correction: TimeInterval) -> Timestamp {
         .wrapping_add(intermediate_nanos.div_euclid(1_000_000_000).into());
     let corrected_nanos = intermediate_nanos.rem_euclid(1_000_000_000);
 
-    Timestamp::new(corrected_seconds, corrected_nanos)
+    // The seconds field is 48 bits wide on the wire; wrap around in that range rather
+    // than panicking on values (fully under control of the server) that leave it.
+    Timestamp::new(corrected_seconds & ((1 << 48) - 1), corrected_nanos)
         .expect("Calculated nanoseconds should be between 0 and 1_000_000_000")
 }
 
